@@ -24,6 +24,16 @@
 #            length is max_line_length-1, =, +1 for max_line_length in {20, 40, 80}, with/without trailing comma;
 #   configs  all 2^9 boolean options x max_line_length {20,80} x indent_by {2 spaces, tab, empty} x end_of_line {lf, crlf}
 #            on the quick program set (thorough: + pairwise covering array on the big program set);
+#   options  every option documented in Commands.md (checked against the manual) as a dimension of a family whose skeletons hold
+#            what the option acts on - group_arg_value: argument lists <= 3 over {'--o', '--', 'v', a} in call / array / method /
+#            before a keyword / array in a keyword, with and without trailing comma; no_single_comma_function: one-argument
+#            calls and their look-alikes; max_line_length {20, 0}: nested argument lists and parentheses of 21..40 columns;
+#            tab_width {2, 4, 8}: tab-indented calls ending at column limit-1, limit, limit+1; sort_files: files() shapes;
+#            simplify_string_literals off; space_array / wide_colon / kwargs_force_multiline; indent_by and
+#            indent_before_comments x 4 values on multi-line containers inside blocks; insert_final_newline off on file ends;
+#            use_editor_config x 3 .editorconfig files (end_of_line: the cli part) - each decorated with every legal trivia
+#            choice in <= 1 gap (<= 2 gaps inside the brackets for the argument-list options), and the number of cases in
+#            which the option changes the output is measured;
 #   corpus   every meson.build below REPO that the real parser accepts, under 4 configurations;
 #   cli      mformat.run(): --check-only / --check-diff exit status  <=>  the bytes --inplace would write differ
 #            from the file, over programs x file line ending {LF, CRLF} x end_of_line {unset, native, lf, crlf, cr}.
@@ -58,6 +68,8 @@ def cfg_key(cfg):
 def cfg_text(cfg):
     lines = []
     for k in sorted(cfg):
+        if k.startswith('('):       # pseudo key of the harness (which .editorconfig lies beside the file), not an option
+            continue
         v = cfg[k]
         if isinstance(v, bool):
             v = 'true' if v else 'false'
@@ -83,7 +95,22 @@ def work_dirs():
             f.write('root = true\n[meson.build]\ntab_width = 8\nindent_style = space\nindent_size = 3\n')
         _DIRS.update(root=root, cfg=os.path.join(root, 'cfg'), src=Path(os.path.join(root, 'ed', 'meson.build')),
                      cli=os.path.join(root, 'cli'))
+        # further .editorconfig files (pseudo key '(editorconfig)' of a configuration selects the directory)
+        for name, text in ED_VARIANTS.items():
+            os.makedirs(os.path.join(root, 'ed_' + name), exist_ok=True)
+            with open(os.path.join(root, 'ed_' + name, '.editorconfig'), 'w') as f:
+                f.write('root = true\n[meson.build]\n' + text)
+            _DIRS['src:' + name] = Path(os.path.join(root, 'ed_' + name, 'meson.build'))
     return _DIRS
+
+
+# what an .editorconfig may say (Commands.md: "`meson format` also recognizes `max_line_length`, `end_of_line`,
+# `insert_final_newline` and `tab_width` options" besides the indentation); read only with use_editor_config / -e
+ED_VARIANTS = {
+    'tab': 'indent_style = tab\ntab_width = 2\nmax_line_length = 24\ninsert_final_newline = false\nend_of_line = crlf\n',
+    'narrow': 'indent_style = space\nindent_size = 2\nmax_line_length = 20\ninsert_final_newline = true\n',
+    'off': 'indent_size = 8\nmax_line_length = off\n',
+}
 
 
 def cfg_file(cfg):
@@ -108,7 +135,8 @@ def formatter(cfg):
 
 
 def real_format(src, cfg):
-    return formatter(cfg).format(src, work_dirs()['src'])
+    ed = cfg.get('(editorconfig)')
+    return formatter(cfg).format(src, work_dirs()['src:' + ed if ed else 'src'])
 
 
 # ============================================================================================================
@@ -447,6 +475,16 @@ def call_in_parens(src):
     return False
 
 
+def paren_in_parens(src):
+    t = ref_tree_or_none(src)
+    for n in walk(t) if t is not None else ():
+        if n and n[0] == 'paren':
+            for m in walk(n[1]):
+                if m and m[0] == 'paren':
+                    return True
+    return False
+
+
 class _EmptyParens(FullAstVisitor):
     def __init__(self):
         self.found = False
@@ -566,6 +604,10 @@ def classify(kind, detail, src, cfg, out, ref=True):
         if indent_only(out, detail) and call_in_parens(src):
             return ('C16:idem:indent-only:call-in-multiline-parens',
                     'a call with split arguments inside a multi-line parenthesised expression is re-indented by every further run')
+        if indent_only(out, detail) and paren_in_parens(src):
+            return ('C16:idem:indent-only:parens-in-multiline-parens',
+                    'parentheses inside a parenthesised expression that the line-length pass splits: the inner closing parenthesis is '
+                    'not indented by the first run, the next run indents it')
     # not explained by a known mechanism
     mo = missing_operand(src) if not ref else None
     if mo == 'missing-operand':
@@ -947,16 +989,17 @@ def choices(kind, ww, i, full, indent_):
 ILL_TOP = ['\n', '\n\n', ' #ci\n', '\n#ci\n']
 
 
-def variants(toks, dev, full, ill=False):
+def variants(toks, dev, full, ill=False, only=None):
     """All decorations with exactly `dev` non-default gaps (legal trivia).  With ill=True exactly one gap (a 'top' one)
-    carries a newline-bearing trivia that is NOT legal there, and dev-1 further gaps carry legal trivia."""
+    carries a newline-bearing trivia that is NOT legal there, and dev-1 further gaps carry legal trivia.  With only = a set of
+    gap kinds, the gaps of every other kind keep their default (and the final newline stays)."""
     n = len(toks)
     kinds = gap_kinds(toks)
     defaults = [t[2] for t in toks] + ['']
     opts = []
     for i, (k, ww) in enumerate(kinds):
         ind = defaults[i] if k == 'bol' else ''
-        o = [x for x in choices(k, ww, i, full, ind) if x != defaults[i]]
+        o = [x for x in choices(k, ww, i, full, ind) if x != defaults[i]] if only is None or k in only else []
         opts.append(o)
     # the final newline may be missing: modelled as an extra choice of the last gap pair (drop the last NL token)
     if not ill:
@@ -965,7 +1008,7 @@ def variants(toks, dev, full, ill=False):
                 gaps = dict(zip(pos, pick))
                 tail = gaps.pop(n, '')
                 yield render(toks, gaps, tail)
-        if dev >= 1 and toks and toks[-1][1] == 'n':
+        if dev >= 1 and toks and toks[-1][1] == 'n' and only is None:
             # "no newline at end of file" counts as one deviation
             short = toks[:-1]
             for pos in itertools.combinations(range(n - 1), dev - 1):
@@ -1337,6 +1380,7 @@ QUICK_PROGRAMS = [
     "x = f('--a', 'b', '--c', '--d', 'e', f)\n",
     "x = a[0][1].m()[2]\n",
     "x = f(\n  a,\n)\nmessage('a single argument that is much longer than the maximal line length of eighty columns')\n",
+    "run_command('prog', '--opt',  # c1\n  'val', '--', 'x', '--flag', '--o2',\n  # c2\n  'v2', check: true)\nx = ['--a', 'b',  # c3\n]\n",
 ]
 
 CORPUS_CFGS = [
@@ -1388,6 +1432,292 @@ def pairwise_configs():
         need = {(i, x, j, y) for (i, x, j, y) in need if not (vals[i] == x and vals[j] == y)}
         rows.append(best)
     return rows, len(need)
+
+
+# ============================================================================================================
+# Option families.  Every option that Commands.md documents for `meson format` is a dimension of a family whose skeletons
+# hold what the option acts on (so that the option changes the output of cases of the family: measured, `effect`), decorated
+# with the legal trivia alphabet at every token gap like the trivia families: the passes that implement the options move
+# and rewrite exactly the whitespace nodes that carry the comments.  The oracle is the general one (tree, comments, fixed
+# point); what an option is documented to do is used only to choose inputs and to count that it happened.
+DOCUMENTED_OPTIONS = ['max_line_length', 'indent_by', 'space_array', 'kwargs_force_multiline', 'wide_colon',
+                      'no_single_comma_function', 'end_of_line', 'indent_before_comments', 'simplify_string_literals',
+                      'insert_final_newline', 'tab_width', 'sort_files', 'group_arg_value', 'use_editor_config']
+
+
+def documented_options_in_manual():
+    """The option names of the list "The following options are recognized" in docs/markdown/Commands.md."""
+    text = open(os.path.join(REPO, 'docs', 'markdown', 'Commands.md'), encoding='utf-8').read()
+    sec = text.split('\n### format\n', 1)[1].split('\n### ', 1)[0]
+    lst = sec.split('The following options are recognized:', 1)[1].split('The first six options', 1)[0]
+    return re.findall(r'^- (\w+) \(', lst, re.M)
+
+
+def S(text):
+    return STR("'%s'" % text)
+
+
+ML_M, ML_P, F_P = STR("'''m'''"), STR("f'''p'''"), STR("f'p'")
+
+# --- group_arg_value: "string argument with `--` prefix followed by string argument without `--` prefix are grouped on the
+# same line, in multiline arguments".  Argument sequences over: an option string, `--` alone, a value string, a non-string.
+GAV_ATOMS = [('O', S('--o')), ('D', S('--')), ('V', S('v')), ('N', ID('a'))]
+GAV_ATOMS_T = GAV_ATOMS + [('S', S('-s')), ('F', STR("f'--@a@'")), ('M', STR("'''--m'''"))]
+GAV_CTX = [
+    ('call', lambda at, tc: EXPR(CALL('f', at, trailing=tc))),
+    ('arr', lambda at, tc: ASSIGN('x', ARR(at, trailing=tc))),
+    ('meth', lambda at, tc: ASSIGN('x', METH(ID('o'), 'm', at, trailing=tc))),
+    ('callkw', lambda at, tc: EXPR(CALL('f', at, [('k', ONE)], trailing=tc))),
+    ('kwarr', lambda at, tc: EXPR(CALL('f', [], [('k', ARR(at, trailing=tc))]))),
+]
+
+
+def gav_skeletons(atoms, length, ctxs):
+    out = []
+    for tup in itertools.product(atoms, repeat=length):
+        for cname, build in ctxs:
+            for tc in (False, True):
+                out.append(('%s:%s%s' % (cname, ''.join(n for n, _ in tup), ',' if tc else ''), build([t for _, t in tup], tc)))
+    return out
+
+
+def opt_skeletons():
+    """name -> [(skeleton name, tokens)]"""
+    a4, b4, c4, d4 = ID('aaaa'), ID('bbbb'), ID('cccc'), ID('dddd')
+    o = ID('o')
+    sk = {}
+    # single-argument calls and what looks like them (no_single_comma_function: "a comma is never appended to function
+    # arguments if there is only one argument, even if using multiline arguments")
+    sk['single'] = [
+        ('call1', ASSIGN('x', CALL('f', [A]))),
+        ('call1,', ASSIGN('x', CALL('f', [A], trailing=True))),
+        ('exprcall1', EXPR(CALL('f', [A]))),
+        ('kw1', ASSIGN('x', CALL('f', [], [('k', A)]))),
+        ('kw1,', ASSIGN('x', CALL('f', [], [('k', A)], trailing=True))),
+        ('meth1', ASSIGN('x', METH(o, 'm', [A]))),
+        ('meth1,', ASSIGN('x', METH(o, 'm', [A], trailing=True))),
+        ('call1arr', ASSIGN('x', CALL('f', [ARR([A, B])]))),
+        ('call1arr,', ASSIGN('x', CALL('f', [ARR([A, B], trailing=True)]))),
+        ('call1call', ASSIGN('x', CALL('f', [CALL('g', [A])]))),
+        ('call1call,', ASSIGN('x', CALL('f', [CALL('g', [A], trailing=True)], trailing=True))),
+        ('arr-of-call', ASSIGN('x', ARR([CALL('f', [A])], trailing=True))),
+        ('dict-of-call', ASSIGN('x', DICT([(S('k'), CALL('f', [A]))], trailing=True))),
+        ('call2,', ASSIGN('x', CALL('f', [A, B], trailing=True))),
+        ('call1ml', ASSIGN('x', CALL('f', [ML_M]))),
+        ('call1paren', ASSIGN('x', CALL('f', [PAR(A)]))),
+        ('call0', ASSIGN('x', CALL('f'))),
+        ('if-call1,', IF([(CALL('f', [A], trailing=True), BODY1)])),
+        ('call1long', EXPR(CALL('f', [ID('a' * 20)]))),
+        ('methkw-paren', ASSIGN('z', METH(ID('y'), 'foo', [], [('bar', BIN(PAR(BIN(ONE, '+', NUM(2))), '*', NUM(3)))]))),
+    ]
+    # argument lists / parentheses of 21..40 columns (max_line_length: "When an array, a dict, a function or a method would be
+    # longer that this, it is formatted one argument per line"), nested in each other and in blocks
+    sk['long'] = [
+        ('call-kwarr', ASSIGN('x', CALL('f', [a4, b4], [('k', ARR([c4, d4]))]))),
+        ('chain', ASSIGN('x', METH(METH(o, 'm', [a4, b4]), 'n', [c4, d4]))),
+        ('dict-arr', ASSIGN('x', DICT([(S('kkkk'), ARR([a4, b4])), (S('l'), c4)]))),
+        ('methkw-paren', ASSIGN('z', METH(ID('y'), 'foo', [], [('bar', BIN(PAR(BIN(ONE, '+', NUM(2))), '*', NUM(3)))]))),
+        ('paren-and-or', ASSIGN('x', PAR(BIN(BIN(a4, 'and', b4), 'or', c4)))),
+        ('paren-paren', ASSIGN('x', PAR(BIN(PAR(BIN(a4, '+', b4)), '*', c4)))),
+        ('paren-call', ASSIGN('x', PAR(CALL('f', [a4, b4, c4])))),
+        ('if-call', IF([(CALL('f', [a4, b4, c4, d4]), BODY1)])),
+        ('nest3', ASSIGN('x', CALL('f', [CALL('g', [CALL('h', [a4, b4]), c4]), d4]))),
+        ('files', ASSIGN('x', CALL('files', [S('bbbb.c'), S('aaaa.c'), S('cccc.c')]))),
+        ('in-blocks', FOREACH(['i'], A, IF([(B, EXPR(CALL('f', [a4, b4], [('k', c4)])))]))),
+        ('one-string', EXPR(CALL('message', [S('one argument longer than 20')]))),
+        ('idx-call', ASSIGN('x', METH(IDX(a4, CALL('f', [b4, c4])), 'm', [d4]))),
+    ]
+    # files(): "arguments of `files()` function are sorted", naturally (a2 before a10), directories first
+    sk['files'] = [
+        ('files2', ASSIGN('x', CALL('files', [S('b.c'), S('a.c')]))),
+        ('files2,', ASSIGN('x', CALL('files', [S('b.c'), S('a.c')], trailing=True))),
+        ('files-arr3', ASSIGN('x', CALL('files', [ARR([S('b.c'), S('a10.c'), S('a2.c')])]))),
+        ('files-arr3,', ASSIGN('x', CALL('files', [ARR([S('b.c'), S('a10.c'), S('a2.c')], trailing=True)]))),
+        ('files-arr2,,', EXPR(CALL('files', [ARR([S('b.c'), S('a.c')], trailing=True)], trailing=True))),
+        ('files-nested', ASSIGN('x', CALL('files', [ARR([ARR([S('b.c'), S('a.c')])])]))),
+        ('files-id', ASSIGN('x', CALL('files', [S('b.c'), A, S('a.c')]))),
+        ('files-dirs', ASSIGN('x', CALL('files', [S('b/a.c'), S('a.c'), S('a/b.c')]))),
+        ('files-same', ASSIGN('x', CALL('files', [S('a.c'), S('a.c')]))),
+        ('meth-files', ASSIGN('x', METH(o, 'files', [S('b.c'), S('a.c')]))),
+        ('files-in-kw', EXPR(CALL('f', [], [('k', CALL('files', [S('b.c'), S('a.c')]))]))),
+        ('files1', ASSIGN('x', CALL('files', [S('a.c')]))),
+        ('files-ml-f', ASSIGN('x', CALL('files', [STR("'''b.c'''"), STR("f'a.c'")]))),
+    ]
+    # string literals that simplify_string_literals rewrites (or must keep)
+    sk['strings'] = [
+        ('ml', ASSIGN('x', ML_M)),
+        ('f', ASSIGN('x', F_P)),
+        ('fml', ASSIGN('x', ML_P)),
+        ('call2', ASSIGN('x', CALL('f', [ML_M, F_P]))),
+        ('call1', ASSIGN('x', CALL('f', [ML_M]))),
+        ('kw', ASSIGN('x', CALL('f', [], [('k', ML_P)]))),
+        ('arr', ASSIGN('x', ARR([ML_M, STR("f'@a@'")]))),
+        ('dict', ASSIGN('x', DICT([(STR("'''k'''"), F_P)]))),
+        ('newline', ASSIGN('x', CALL('f', [STR("'''l1\nl2'''"), A]))),
+        ('quote', ASSIGN('x', ARR([STR("'''q'r'''")]))),
+    ]
+    # arrays, dicts, keyword arguments (space_array, wide_colon, kwargs_force_multiline)
+    sk['layout'] = [
+        ('arr2', ASSIGN('x', ARR([A, B]))),
+        ('arr1', ASSIGN('x', ARR([A]))),
+        ('arr0', ASSIGN('x', ARR())),
+        ('arr2,', ASSIGN('x', ARR([A, B], trailing=True))),
+        ('arr-arr', ASSIGN('x', ARR([ARR([A]), ARR([B])]))),
+        ('call-arr-kwarr', ASSIGN('x', CALL('f', [ARR([A, B])], [('k', ARR([ONE]))]))),
+        ('dict2', ASSIGN('x', DICT([(S('k'), A), (S('l'), ARR([B]))]))),
+        ('dict0', ASSIGN('x', DICT())),
+        ('call-kw2', ASSIGN('x', CALL('f', [], [('k', A), ('l', B)]))),
+        ('meth-pos-kw', ASSIGN('x', METH(o, 'm', [A], [('k', B)]))),
+        ('kw-dict', ASSIGN('x', CALL('f', [A], [('k', DICT([(S('k'), B)]))]))),
+        ('kw-call-kw', EXPR(CALL('f', [], [('k', CALL('g', [], [('l', A)]))]))),
+        ('foreach-arr', FOREACH(['i'], ARR([A, B]), BODY1)),
+        ('idx', ASSIGN('x', IDX(A, B))),
+        ('tern-in-dict', ASSIGN('x', DICT([(S('k'), TERN(A, B, ONE))]))),
+    ]
+    # multi-line containers inside blocks (indent_by, indent_before_comments, .editorconfig indentation)
+    sk['nested'] = [
+        ('if-arr,', IF([(A, ASSIGN('x', ARR([A, B], trailing=True)))])),
+        ('foreach-if-call,', FOREACH(['i'], A, IF([(B, EXPR(CALL('f', [A], [('k', B)], trailing=True)))], BODY1))),
+        ('if-paren', IF([(PAR(BIN(A, 'and', B)), BODY1)])),
+        ('dict-arr,', ASSIGN('x', DICT([(S('k'), ARR([A, B], trailing=True))], trailing=True))),
+        ('chain,', ASSIGN('x', METH(METH(A, 'm', [B], trailing=True), 'n'))),
+        ('if-else-call,', IF([(A, BODY2)], EXPR(CALL('g', [A, B], trailing=True)))),
+        ('call-call,', EXPR(CALL('f', [CALL('g', [A], trailing=True)], trailing=True))),
+        ('if-if', IF([(A, IF([(B, BODY1)]))])),
+    ]
+    # the end of the file (insert_final_newline)
+    sk['eof'] = [
+        ('empty', []),
+        ('assign', ASSIGN('x', ONE)),
+        ('call,', EXPR(CALL('f', [A], trailing=True))),
+        ('if', IF([(A, BODY1)])),
+        ('two', ASSIGN('x', ONE) + EXPR(CALL('f', [A]))),
+    ]
+    return sk
+
+
+TABW_L = 24
+
+
+def tabw_skeletons(widths):
+    """A call at block depth 1 and 2, indented by tabs, whose line ends at column TABW_L-1, TABW_L, TABW_L+1 when a tab stop is
+    `w` wide, for every w (tab_width: "Width of tab stops, used to compute line length when `indent_by` uses tab characters")."""
+    out = []
+    seen = set()
+    for depth in (1, 2):
+        for w in widths:
+            for d in (-1, 0, 1):
+                stmt_len = TABW_L + d - depth * w
+                pad = stmt_len - len("x = f(v, w)")
+                if pad < 0 or (depth, stmt_len) in seen:
+                    continue
+                seen.add((depth, stmt_len))
+                body = ASSIGN('x', CALL('f', [ID('v' + 'z' * pad), ID('w')]))
+                for _ in range(depth):
+                    body = IF([(A, body)])
+                out.append(('depth%d:len%d' % (depth, stmt_len), body))
+    return out
+
+
+def without(cfg, *opts):
+    return {k: v for k, v in cfg.items() if k not in opts}
+
+
+def option_families(T):
+    """[(option, family name, skeletons, [(configuration, the same without the option)],
+         [(devs, full alphabet, gap kinds or None, first n skeletons or None)])]"""
+    sk = opt_skeletons()
+    fams = []
+
+    def add(opt, name, skels, cfgs, plans):
+        fams.append((opt, name, skels, cfgs, plans))
+
+    IN = ('in',)
+    std = [((0, 1), True, None, None)]
+    # group_arg_value
+    gav = {'group_arg_value': True}
+    tabbed = (dict(gav, indent_by='\t', indent_before_comments=' '), {'indent_by': '\t', 'indent_before_comments': ' '})
+    add('group_arg_value', 'args2', gav_skeletons(GAV_ATOMS, 2, GAV_CTX if T else GAV_CTX[:3]), [(gav, {})] + ([tabbed] if T else []), std)
+    if not T:
+        add('group_arg_value', 'args2:kw', gav_skeletons(GAV_ATOMS, 2, GAV_CTX[3:]), [(gav, {})], [((0, 1), False, None, None)])
+        add('group_arg_value', 'args2:tab', gav_skeletons(GAV_ATOMS, 2, GAV_CTX[:2]), [tabbed], [((0, 1), False, None, None)])
+    add('group_arg_value', 'args2:dev2', gav_skeletons(GAV_ATOMS, 2, GAV_CTX[:3] if T else GAV_CTX[:1]), [(gav, {})], [((2,), T, IN, None)])
+    add('group_arg_value', 'args3', gav_skeletons(GAV_ATOMS, 3, GAV_CTX if T else GAV_CTX[:1]), [(gav, {})], [((0, 1), T, None, None)])
+    if T:
+        add('group_arg_value', 'args2:more-strings', gav_skeletons(GAV_ATOMS_T, 2, GAV_CTX[:2]),
+            [(gav, {}), (dict(gav, max_line_length=20), {'max_line_length': 20})], std)
+        add('group_arg_value', 'args4', gav_skeletons(GAV_ATOMS, 4, GAV_CTX[:1]), [(gav, {})], [((0, 1), False, None, None)])
+    # no_single_comma_function
+    n1 = {'no_single_comma_function': True}
+    n2 = {'no_single_comma_function': True, 'max_line_length': 20, 'kwargs_force_multiline': True}
+    add('no_single_comma_function', 'single', sk['single'], [(n1, {}), (n2, without(n2, 'no_single_comma_function'))],
+        std + [((2,), T, IN, None if T else 4)])
+    # max_line_length
+    add('max_line_length', 'long', sk['long'], [({'max_line_length': m}, {}) for m in ((20, 0, 30, 10) if T else (20, 0))] +
+        [({'max_line_length': 20, 'indent_by': '\t', 'tab_width': 8}, {'indent_by': '\t', 'tab_width': 8})],
+        [((0, 1), T, None, None)])
+    # tab_width
+    widths = (1, 2, 4, 8) if T else (2, 4, 8)
+    tb = {'indent_by': '\t', 'max_line_length': TABW_L}
+    add('tab_width', 'tabs', tabw_skeletons(widths), [(dict(tb, tab_width=w), tb) for w in widths], [((0, 1), T, None, None)])
+    # sort_files
+    s2_ = {'sort_files': True, 'max_line_length': 20, 'no_single_comma_function': True}
+    add('sort_files', 'files', sk['files'], [({'sort_files': True}, {}), (s2_, without(s2_, 'sort_files'))],
+        std + [((2,), T, IN, None if T else 2)])
+    # simplify_string_literals
+    s3_ = {'simplify_string_literals': False, 'no_single_comma_function': True, 'max_line_length': 20}
+    add('simplify_string_literals', 'strings', sk['strings'],
+        [({'simplify_string_literals': False}, {}), (without(s3_, 'max_line_length'), {'no_single_comma_function': True}),
+         (dict(s3_, simplify_string_literals=True), s3_)], std)
+    # space_array, wide_colon, kwargs_force_multiline
+    three = ('space_array', 'wide_colon', 'kwargs_force_multiline')
+    for o_ in three:
+        add(o_, 'layout', sk['layout'], [({o_: True}, {})], std)
+    if T:
+        for o_, p_ in itertools.combinations(three, 2):
+            add(o_, 'layout:+' + p_, sk['layout'], [({o_: True, p_: True}, {p_: True})], std)
+    # indent_by, indent_before_comments
+    add('indent_by', 'nested', sk['nested'],
+        [({'indent_by': v}, {}) for v in (('  ', '\t', '', '   ', ' \t', ' ' * 8) if T else ('  ', '\t', '', '   '))], [((0, 1), T, None, None)])
+    add('indent_before_comments', 'nested', sk['nested'], [({'indent_before_comments': v}, {}) for v in ('', ' ', '\t', '    ')],
+        [((0, 1), T, None, None)])
+    # insert_final_newline
+    add('insert_final_newline', 'eof', sk['eof'],
+        [({'insert_final_newline': False}, {}), ({'insert_final_newline': False, 'indent_by': ''}, {'indent_by': ''})], [((0, 1), True, None, None), ((2,), T, None, None)])
+    # use_editor_config (an .editorconfig beside the file; the configuration file may set the same things and then wins)
+    uec = {'use_editor_config': True}
+    add('use_editor_config', 'nested+long', sk['nested'] + sk['long'],
+        [(dict(uec, **{'(editorconfig)': v}), {}) for v in sorted(ED_VARIANTS)] +
+        [(dict(uec, **{'(editorconfig)': 'tab', 'indent_by': '  ', 'tab_width': 4}), {'indent_by': '  ', 'tab_width': 4}),
+         ({'use_editor_config': False, '(editorconfig)': 'tab'}, {})],
+        [((0, 1), T, None, None)])
+    return fams
+
+
+OPT_FAMS = []
+
+
+def w_option(item):
+    """item: (family index, skeleton index, dev, full, gap kinds, cfg, base).  -> (summary, number of cases whose output differs
+    from the output under `base`, the configuration without the option)"""
+    fi, idx, dev, full, only, cfg, base = item
+    toks = OPT_FAMS[fi][2][idx][1]
+    seen = set()
+    eff = [0]
+
+    def gen():
+        for src in variants(toks, dev, full, only=set(only) if only else None):
+            if src in seen:
+                continue
+            seen.add(src)
+            st, v, cls, out = judge_out(src, cfg)
+            if st == 'ok' and dev <= 1:
+                try:
+                    eff[0] += real_format(src, base) != out
+                except MesonException:
+                    pass
+            yield src, cfg, st, v, cls
+    return summarise(gen()), eff[0]
 
 
 # ============================================================================================================
@@ -1530,6 +1860,7 @@ CLI_PROGRAMS = [
     "x = 1",                                  # no final newline
     "",
     "x = files('a.c', 'b.c')\ny = 2\n",
+    "# c0\n\nx = a \\\n  + 1  # c1\nif x\n    y = [\n        1,  # c2\n    ]\nendif\n",     # every kind of trivia that holds a line ending
 ]
 
 
@@ -1692,6 +2023,45 @@ def main():
     fam_trivia('trivia:skel:dev1:cfgE', 'skel', (1,), True, {'indent_by': '', 'indent_before_comments': ''})
     if T:
         fam_trivia('trivia:s1:dev1:cfgE', 's1', (1,), True, {'indent_by': '', 'indent_before_comments': ''})
+
+    # ---- option families: every documented option x inputs it acts on x trivia ---------------------------------------
+    if ck.want('options'):
+        manual = documented_options_in_manual()
+        ck.require(sorted(manual) == sorted(DOCUMENTED_OPTIONS),
+                   'the options documented in Commands.md are not the ones this check has families for: %r' % sorted(set(manual) ^ set(DOCUMENTED_OPTIONS)))
+        OPT_FAMS[:] = option_families(T)
+        items = []
+        for fi, (opt, name, skels, cfgs, plans) in enumerate(OPT_FAMS):
+            for devs, full, only, nsk in plans:
+                for cfg, base in cfgs:
+                    for dev in devs:
+                        for idx in range(len(skels) if nsk is None else min(nsk, len(skels))):
+                            items.append((fi, idx, dev, full, only, cfg, base))
+        per = {}
+        for item, (s, eff) in zip(items, pmap(w_option, items, chunksize=4)):
+            opt, name = OPT_FAMS[item[0]][:2]
+            e = per.setdefault(opt, {'s': empty_summary(), 'effect': 0, 'fams': {}, 'cfgs': set(), 'skels': set()})
+            merge(e['s'], s)
+            e['effect'] += eff
+            e['fams'][name] = e['fams'].get(name, 0) + s['n']
+            e['cfgs'].add(cfg_key(item[5]))
+            e['skels'].add((item[0], item[1]))
+        for opt in sorted(per):
+            e = per[opt]
+            report(ck, 'options:' + opt, e['s'])
+            ck.part('options:' + opt, skeletons=len(e['skels']), configurations=len(e['cfgs']), cases_by_family=dict(sorted(e['fams'].items())),
+                    cases_where_the_option_changes_the_output=e['effect'])
+            D['options:' + opt] = e['s']
+            need(e['effect'] > 0, 'options: %s never changed the output of a case of its family' % opt)
+            need(e['s']['ok'] > 0, 'options: no case of the family of %s was judged' % opt)
+        missing = sorted(set(DOCUMENTED_OPTIONS) - set(per) - {'end_of_line'})      # (end_of_line: the cli part, see there)
+        need(not missing, 'options: documented options without a family: %r' % missing)
+        # the situation group_arg_value is about, with something on the comma between option and value
+        gv = [render(t, {i: ' #c\n' for i in range(len(t)) if t[i][0] == "'v'" and t[i - 1][0] == ',' and t[i - 2][0] == "'--o'"})
+              for _, t in OPT_FAMS[0][2]]
+        ncm = sum(1 for x in gv if re.search(r"'--o', #c\n'v'", x))
+        ck.part('options:group_arg_value', skeletons_with_option_then_value=ncm)
+        need(ncm > 0, 'options: group_arg_value: no argument list with an option string followed by a value')
 
     # ---- ill-formed but accepted -----------------------------------------------------------------------------
     if ck.want('illformed'):
@@ -1914,6 +2284,16 @@ def main():
                                 ck.violation(key, what, {'family': 'cli-multi', 'arr': ''.join(arr), 'mode': mode, 'how': how})
         ck.part('cli', cases=n, real_cli_runs=n * 5 + multi, multi_file_invocations=multi, skipped_impl_rejects=skipped, violation_counts=dict(sorted(vc.items())), **seen)
         need(min(seen.values()) > 0, 'CLI part did not see every outcome: %r' % seen)
+        # end_of_line acts only where the text is written (run()): its family is this part - file line ending x every value,
+        # from the configuration file and from an .editorconfig, over programs with every kind of trivia that holds a line ending
+        eolv = {}
+        for it in items:
+            v = it[3].get('end_of_line') or (it[4] if len(it) > 4 else None)
+            if v:
+                eolv[v] = eolv.get(v, 0) + 1
+        ck.part('options:end_of_line', family='cli', cases_by_value=dict(sorted(eolv.items())), programs=len(CLI_PROGRAMS),
+                outputs_with_crlf=seen['crlf'])
+        need({'lf', 'crlf', 'cr', 'native'} <= set(eolv) and seen['crlf'] > 0, 'options: end_of_line: a value was never exercised: %r' % eolv)
         evaluations += n * 5
         classes.add(('cli', 'ok'))
         for k in vc:
@@ -1956,6 +2336,9 @@ def main():
               "read by the reference, any other \\N{name} makes a case unspecified")
     ck.assume('a comment is the text from # to the end of the line (LF); a lone CR inside a comment is not enumerated (line ending '
               'or comment text is not stated), trailing whitespace of a comment is not compared')
+    ck.assume('configuration values are the documented types used as documented: indent_by and indent_before_comments are runs of '
+              'spaces and tabs ("Indentation to use": anything else is not white space of the language, the text could not mean the '
+              'same program), tab_width >= 1, max_line_length >= 0 (0 is what an .editorconfig max_line_length = off becomes)')
     ck.assume('end_of_line has no effect on Formatter.format() (it is applied by the writer in run()); it is exercised through '
               'the configuration files of the product and through the CLI part')
     ck.assume('inputs the reference parser rejects but the real parser accepts are judged only by the real parser itself and '
@@ -1966,7 +2349,7 @@ def main():
                    'depth<=2 grammar / statement sequences <= 3 / skeleton set; every string body <= %d over the X4 alphabet in 4 '
                    'quoting forms; every string body <= 3 atoms over {a} + {@, quote, backslash, newline} x {literal, one-letter '
                    'escape, octal, \\x, \\u, \\U, \\N{name}} in 4 quoting forms (+ as single container element under the comma '
-                   'options); every Latin-1 / Unicode separator character in a comment x 3 positions x 6 places; every boundary-length argument list; every configuration of the option product on the quick '
+                   'options); every Latin-1 / Unicode separator character in a comment x 3 positions x 6 places; every boundary-length argument list; every documented option x the skeletons it acts on x every legal trivia choice in <= 1 gap (<= 2 inside brackets); every configuration of the option product on the quick '
                    'program set; every corpus file x 4 configurations; CLI status vs bytes. Each case = 2 real format runs judged by '
                    'the E6 parser (tree modulo trivia/parentheses/documented simplifications, comment sequence, idempotence). '
                    'distinct_nontrivial = distinct (line-count change, comma change, input features, literal-kind change) classes '
